@@ -14,6 +14,7 @@ import (
 	"runtime"
 	"sync"
 	"sync/atomic"
+	"syscall"
 	"time"
 
 	"github.com/cuteLittleDevil/go-jt808/protocol/jt808"
@@ -264,6 +265,19 @@ func init() {
 				ok = false
 			}
 			// a new connection is accepted and served
+			if tc, err := net.DialTimeout("tcp", l.addr, 2*time.Second); err != nil {
+				l.rec.log(canary.idx, "D", "canary", "after", after, "ok", false, "why", "connect: "+err.Error())
+				time.Sleep(50 * time.Millisecond)
+				l.dump(a[1]) // the server does not accept any more: nothing further can be driven
+				os.Exit(0)
+				return false
+			} else {
+				select { // (the server started a connection for it: its number is used up)
+				case <-l.newConn:
+				case <-time.After(2 * time.Second):
+				}
+				tc.Close()
+			}
 			fp := []byte{0x01, 0x34, byte(r.Intn(10)<<4 | r.Intn(10)), byte(r.Intn(10)<<4 | r.Intn(10)), byte(r.Intn(10)<<4 | r.Intn(10)), byte(r.Intn(10)<<4 | r.Intn(10))}
 			f := l.dial(fp, 0)
 			f.send(f.frame(0x0002, nil))
@@ -453,6 +467,46 @@ func init() {
 			l.rec.log(canary.idx, "D", "leak", "fds", fd1-fd0, "goroutines", g1-g0, "after", "150-connections-that-end-before-joining")
 		}
 		probe("150-connections-that-end-before-joining")
+		// the process runs out of descriptors for a moment (an operator's limit, a burst of connections): accept fails once or a few
+		// times; when descriptors are free again the server accepts as before
+		{
+			var lim, old syscall.Rlimit
+			if syscall.Getrlimit(syscall.RLIMIT_NOFILE, &old) == nil {
+				lim = old
+				lim.Cur = 600
+				if syscall.Setrlimit(syscall.RLIMIT_NOFILE, &lim) == nil {
+					var filler []*os.File
+					for {
+						f, err := os.Open(os.DevNull)
+						if err != nil {
+							break
+						}
+						filler = append(filler, f)
+					}
+					exhausted := len(filler) > 0
+					if exhausted {
+						filler[len(filler)-1].Close() // one descriptor: enough for a client socket, none left for the accept
+						filler = filler[:len(filler)-1]
+						if c, err := net.DialTimeout("tcp", l.addr, time.Second); err == nil {
+							time.Sleep(60 * time.Millisecond)
+							c.Close()
+						}
+					}
+					for _, f := range filler {
+						f.Close()
+					}
+					syscall.Setrlimit(syscall.RLIMIT_NOFILE, &old)
+					time.Sleep(50 * time.Millisecond)
+					// (the connection that could not be accepted may be accepted now: it is connection number next, closed already)
+					select {
+					case <-l.newConn:
+					case <-time.After(300 * time.Millisecond):
+					}
+					l.rec.log(canary.idx, "D", "hostile", "name", "descriptor-exhaustion-at-accept")
+				}
+			}
+		}
+		probe("descriptor-exhaustion-at-accept")
 		// a client that presents the established session's key is refused; the established session keeps its registration
 		for i := 0; i < 3; i++ {
 			d := l.dial(cphone, 0)
